@@ -564,7 +564,7 @@ impl World {
     pub fn deliver(&mut self, from: usize, i: usize, keep: bool) -> Outcome {
         if i >= self.net[from].len() {
             return Outcome {
-                res: "nodatagram".into(),
+                res: "skipped".into(),
                 ..Default::default()
             };
         }
@@ -950,6 +950,19 @@ impl World {
     pub fn apply(&mut self, act: &Value) -> Outcome {
         let a = act["a"].as_str().unwrap_or("");
         let e = || eidx(act["e"].as_str().unwrap_or("c"));
+        // "callers only make calls the state permits": a schedule step whose precondition does not hold on
+        // the real object (the code deviated earlier) is skipped, not executed
+        if matches!(a, "connect" | "send" | "connless" | "flush" | "disconnect") {
+            let st = self.proj_ep(e())["st"].as_str().unwrap_or("").to_string();
+            let ok = match a {
+                "connect" => st == "Unc",
+                "disconnect" => st != "Disc" && (self.mode.v7 || st != "Unc"),
+                _ => st == "Onl",
+            };
+            if !ok {
+                return Outcome { res: "skipped".into(), ..Default::default() };
+            }
+        }
         let from = || eidx(act["from"].as_str().unwrap_or("c"));
         match a {
             "connect" => self.connect(e()),
